@@ -162,6 +162,22 @@ pub fn apply_real<const N: usize>(g: &mut Sodg<N>, op: &Op) -> Result<Ret, Strin
             *g = g.clone();
             Ret::Unit
         }
+        Op::CloneFromSwap => {
+            let cap = g.verif_snapshot().vertices.len();
+            let mut t: Sodg<N> = Sodg::empty(cap);
+            t.add(0);
+            if cap >= 2 {
+                t.add(1);
+                t.bind(0, 1, lab(0));
+                t.put(1, &dat(0));
+                let _ = t.next_id();
+            } else {
+                t.put(0, &dat(0));
+            }
+            t.clone_from(g);
+            *g = t;
+            Ret::Unit
+        }
         Op::ReloadSwap => match reload(g) {
             Ok(l) => {
                 *g = l;
